@@ -26,6 +26,8 @@ pub struct HistCfg {
     pub leave_free: Option<(u32, u32)>,
     pub force_two_fats: bool,
     pub fsinfo: Option<FsInfoInit>,
+    /// add a directory FULLDIR whose slots are all taken, and open it as directory slot 1
+    pub full_dir: bool,
 }
 
 impl HistCfg {
@@ -66,6 +68,14 @@ pub fn build_image(cfg: &HistCfg) -> Built {
     let mut parts = Vec::new();
     let mut f = Fmt::new(g1, Rng::new(rng.next_u64()));
     fsx::populate(&mut f, cfg.recipe, &mut rng);
+    if cfg.full_dir && (f.g.fat32 || f.dir_capacity(0) - f.dirs[0].used >= 3) && f.g.spc <= 8 {
+        let d = f.mkdir(0, &crate::mkfs::name11("FULLDIR"), 0, crate::mkfs::Alloc::Seq);
+        let cap = f.dir_capacity(d);
+        for i in 0..cap - 2 {
+            // empty files: they take a slot but no cluster
+            f.add_file(d, &crate::mkfs::name11(&format!("Z{}.E", i)), 0x20, &[], crate::mkfs::Alloc::Seq);
+        }
+    }
     if let Some((k, which)) = cfg.leave_free {
         f.fill_leaving(k, which);
     }
@@ -118,6 +128,8 @@ pub fn cfg_for_tier(prop: &str, seed: u64, index: u64, thorough: bool) -> HistCf
         "C16" => *rng.pick(&[Profile::Fill, Profile::Dirs, Profile::Rw, Profile::Grow]),
         _ => Profile::Mixed,
     };
+    let edge = matches!(prop, "C03" | "C04" | "C05" | "C16") && index % 6 == 5;
+    let profile = if edge { Profile::Edge } else { profile };
     let limits = if prop == "C08" || rng.chance(1, 3) { LIMITS[(index as usize) % LIMITS.len()] } else { (4, 4, 1) };
     let fat32 = match prop {
         "C16" => Some(index % 3 != 0),
@@ -127,6 +139,7 @@ pub fn cfg_for_tier(prop: &str, seed: u64, index: u64, thorough: bool) -> HistCf
     let max_spc = if is_fat32 { if thorough { *rng.pick(&[1u32, 1, 2, 8, 16, 64]) } else { *rng.pick(&[1u32, 1, 2, 8]) } } else { *rng.pick(&[1u32, 1, 2, 4, 8, 8, 32, 128]) };
     let long = thorough && index % 4 == 0;
     let leave_free = match profile {
+        Profile::Edge => Some((*rng.pick(&[0u32, 1, 1, 2, 3]), rng.below(3) as u32)),
         Profile::Fill => Some((*rng.pick(&[0u32, 1, 2, 3, 17, 130]), rng.below(3) as u32)),
         _ => {
             if rng.chance(1, 3) {
@@ -151,6 +164,7 @@ pub fn cfg_for_tier(prop: &str, seed: u64, index: u64, thorough: bool) -> HistCf
         leave_free,
         force_two_fats: prop == "C16" && index % 2 == 0,
         fsinfo: None,
+        full_dir: edge,
     }
 }
 
@@ -166,6 +180,9 @@ pub fn run_history(cfg: &HistCfg) -> Result<Engine, String> {
     let mut rng = Rng::from_parts(&[cfg.seed, cfg.index, 0x0b5]);
     for op in e.setup_ops(&mut rng) {
         e.step(op);
+    }
+    if cfg.full_dir {
+        e.step(super::ops::Op::OpenDir { fl: crate::vm::Fl::Raw, parent: 0, name: "FULLDIR".into(), ds: 1 });
     }
     for _ in 0..cfg.nops {
         if e.aborted {
@@ -265,6 +282,10 @@ fn run_mini(ctx: &Ctx, prop: &str) -> i32 {
         cfg.recipe = Recipe::Empty;
         cfg.leave_free = None;
         cfg.nops = ctx.arg_u64("ops").unwrap_or(60) as usize;
+        cfg.full_dir = false;
+        if cfg.profile == Profile::Edge {
+            cfg.profile = Profile::Mixed;
+        }
         cfg.limits = LIMITS[((shard * 7 + i) as usize) % LIMITS.len()];
         match run_history(&cfg) {
             Ok(e) => {
